@@ -22,6 +22,8 @@ Spec directives (contracts/*.skel):
   @facet <n> has_value <C expression>  `v.has_value()` / `if (v)` on a value tagged <n>
   @throws <callee>                     the call may throw (control may leave to the enclosing handler / the caller)
   @return <fn> <C macro name>          `return e;` in <fn> emits MACRO(<condition skeleton of e>);
+  @focus <fn> <string literal>         lower only the then-branch of the first `if` in <fn> whose condition mentions the
+                                       literal (e.g. the `command == "fetch"` branch of main); entry skel_<fn>__focus
   @option loop_bound <k>               loops are unrolled <k> times (default 2): results over loops are BOUNDED
   @prologue ... @end                   ghost state and macros (C)
 """
@@ -30,7 +32,8 @@ sys.path.insert(0, os.path.dirname(os.path.abspath(__file__)))
 from cxxast import Index, dump_ast, LoweringError, has_body, params, body
 
 STRIP = ('ImplicitCastExpr', 'ParenExpr', 'ExprWithCleanups', 'MaterializeTemporaryExpr', 'CXXBindTemporaryExpr',
-         'ConstantExpr', 'CXXFunctionalCastExpr', 'CXXStaticCastExpr', 'CStyleCastExpr', 'FullExpr')
+         'ConstantExpr', 'CXXFunctionalCastExpr', 'CXXStaticCastExpr', 'CStyleCastExpr', 'FullExpr',
+         'CXXRewrittenBinaryOperator')   # `a != b` rewritten by C++20 as !(a == b): the child is the semantic form
 
 
 def mangle(q):
@@ -44,6 +47,7 @@ class SkelSpec:
         self.source = None
         self.skeleton, self.events, self.preds, self.tags, self.facets, self.throws, self.returns = [], {}, {}, {}, {}, set(), {}
         self.options, self.prologue = {}, []
+        self.focus = []
         sec = None
         for raw in open(path):
             line = raw.rstrip('\n')
@@ -68,6 +72,8 @@ class SkelSpec:
                     self.throws |= set(st.split()[1:])
                 elif d == '@return':
                     self.returns[parts[1]] = parts[2]
+                elif d == '@focus':
+                    self.focus.append((parts[1], parts[2].strip()))
                 elif d == '@option':
                     self.options[parts[1]] = parts[2] if len(parts) > 2 else '1'
                 elif d == '@prologue':
@@ -160,6 +166,9 @@ class Skel:
                     if vid in self.lambdas:
                         return 'lambda:' + vid, None, args[1:]
                     return 'var:' + obj['referencedDecl'].get('name', ''), None, args[1:]
+            if opname.startswith('operator') and opname != 'operator()':
+                did = c.get('referencedDecl', {}).get('id')
+                return opname, self.defs.get(self.canon(did)) if did else None, args
             return None, None, args
         if k in ('CXXConstructExpr', 'CXXTemporaryObjectExpr'):
             t = n.get('type', {}).get('qualType', '')
@@ -317,11 +326,20 @@ class Skel:
             if cid in self.fnames or self.contains_tracked(d):
                 lines.append(f'{ind}{self.request(cid)}();')
                 self.after_call(lines, ind, True)
+        if d is not None and any(c.get('kind') == 'CXX11NoReturnAttr' for c in d.get('inner', [])) or \
+                (key and not key.startswith(('member:', 'lambda:', 'ctor:', 'var:')) and self.is_noreturn(key)):
+            lines.append(f'{ind}{self.throw_stmt()}   /* [[noreturn]] callee */')
         tp = self.match(self.spec.throws, key)
         if tp:
             self.used['throws'].add(tp)
             lines.append(f'{ind}if (nondet_bool()) {{ {self.throw_stmt()} }}   /* {tp} may throw */')
         return val
+
+    def is_noreturn(self, q):
+        for n in self.ix.defs.get(q, []):
+            if any(c.get('kind') == 'CXX11NoReturnAttr' for c in n.get('inner', [])):
+                return True
+        return False
 
     def after_call(self, lines, ind, may_throw):
         # a skeleton callee that threw: control leaves to the enclosing handler (or the caller)
@@ -372,6 +390,10 @@ class Skel:
             return '1' if e.get('value') else '0'
         if k == 'CXXMemberCallExpr':
             me = self.strip(e['inner'][0])
+            if me.get('name') in ('has_value', 'operator bool') and me.get('inner'):
+                o = self.strip(me['inner'][0])
+                if o is not None and o.get('kind') == 'DeclRefExpr' and o['referencedDecl']['id'] in self.optvars:
+                    return self.optvars[o['referencedDecl']['id']]
             if me.get('name') == 'has_value' and me.get('inner'):
                 t = self.tag_of(me['inner'][0])
                 if (t, 'has_value') in self.spec.facets:
@@ -383,6 +405,8 @@ class Skel:
                 return '(' + self.spec.facets[(t, 'has_value')] + ')'
             if k == 'DeclRefExpr' and e['referencedDecl']['id'] in self.boolvars:
                 return self.boolvars[e['referencedDecl']['id']]
+            if k == 'DeclRefExpr' and e['referencedDecl']['id'] in self.optvars:
+                return self.optvars[e['referencedDecl']['id']]
         if k in ('CallExpr', 'CXXMemberCallExpr', 'CXXOperatorCallExpr'):
             key, d, args = self.callee(e)
             for a in e.get('inner', []):
@@ -390,6 +414,11 @@ class Skel:
             v = self.call_effects(key, d, args, lines, ind, want_value=True)
             if v is not None:
                 return v
+            if self.callee_ret_kind(key, d):
+                t = f'__r{self.tmp}'
+                self.tmp += 1
+                lines.append(f'{ind}_Bool {t} = __skel_ret;')
+                return t
             return self.nd()
         self.events_in(e, lines, ind)
         return self.nd()
@@ -457,6 +486,12 @@ class Skel:
             if macro and e is not None:
                 c = self.cond(e, lines, ind)
                 lines.append(f'{ind}{macro}({c});')
+                if self.cur_ret_kind:
+                    lines.append(f'{ind}__skel_ret = {c};')
+            elif e is not None and self.cur_ret_kind:
+                c = self.ret_value(e, lines, ind)
+                if c != '__skel_ret':
+                    lines.append(f'{ind}__skel_ret = {c};')
             elif e is not None:
                 self.events_in(e, lines, ind)
             lines.append(f'{ind}return;')
@@ -475,6 +510,19 @@ class Skel:
                 if t:
                     self.alias[d['id']] = t
                 ty = d.get('type', {}).get('qualType', '')
+                if e0 is not None and e0.get('kind') in ('CallExpr', 'CXXMemberCallExpr', 'CXXOperatorCallExpr'):
+                    key0, d0, _ = self.callee(e0)
+                    rk = self.callee_ret_kind(key0, d0) if (key0 and (key0.startswith('lambda:') or d0 is not None)) else None
+                    if rk is None and d0 is not None and not self.match(self.spec.events, key0) and not self.match(self.spec.preds, key0) \
+                            and self.contains_tracked(d0):
+                        rk = self.ret_kind_of(d0)
+                    if rk:
+                        self.events_in(init[0], lines, ind)
+                        name = f'__r{self.tmp}_{re.sub(r"[^A-Za-z0-9_]", "_", d.get("name", "v"))}'
+                        self.tmp += 1
+                        lines.append(f'{ind}_Bool {name} = __skel_ret;')
+                        (self.boolvars if rk == 'bool' else self.optvars)[d['id']] = name
+                        continue
                 if ty in ('bool', 'const bool'):
                     c = self.cond(init[0], lines, ind)
                     name = f'__b{self.tmp}_{re.sub(r"[^A-Za-z0-9_]", "_", d.get("name", "v"))}'
@@ -562,6 +610,66 @@ class Skel:
             return self.stmts(n, ind)
         return [ind + '{'] + self.stmts(n, ind + '  ') + [ind + '}']
 
+    # ------------------------------------------------------------ results of skeleton callees (bool / optional "success" facet)
+    def ret_kind_of(self, fnode):
+        """'bool' / 'optional' / None from a function (or lambda call operator) declaration"""
+        t = (fnode.get('type', {}).get('desugaredQualType') or fnode.get('type', {}).get('qualType', ''))
+        head = t.split('(')[0].strip()
+        if ' -> ' in t:
+            head = t.rsplit(' -> ', 1)[1].strip()
+        if head in ('bool', '_Bool'):
+            return 'bool'
+        if head.startswith('std::optional<') or head.startswith('optional<'):
+            return 'optional'
+        return None
+
+    def is_optional_type(self, e):
+        t = e.get('type', {})
+        q = (t.get('desugaredQualType') or t.get('qualType') or '')
+        return 'optional<' in q
+
+    def callee_ret_kind(self, key, d):
+        if key and key.startswith('lambda:'):
+            lam = self.lambdas.get(key[7:])
+            for c in lam['inner'][0].get('inner', []) if lam else []:
+                if c.get('kind') == 'CXXMethodDecl' and c.get('name') == 'operator()':
+                    return self.ret_kind_of(c)
+            return None
+        if d is not None and (self.canon(d['id']) in self.fnames):
+            return self.ret_kind_of(d)
+        return None
+
+    def ret_value(self, e, lines, ind):
+        """C boolean for the success facet of a returned expression"""
+        if self.cur_ret_kind == 'bool':
+            return self.cond(e, lines, ind)
+        x = self.strip(e)
+        if x is None:
+            return '0'
+        k = x.get('kind')
+        if k == 'DeclRefExpr':
+            rd = x['referencedDecl']
+            if rd.get('name') == 'nullopt':
+                return '0'
+            if rd['id'] in self.optvars:
+                return self.optvars[rd['id']]
+        if k in ('CXXConstructExpr', 'CXXTemporaryObjectExpr', 'InitListExpr') and not [c for c in x.get('inner', []) if c.get('kind') != 'CXXDefaultArgExpr']:
+            return '0'                      # `return {};` / optional<T>{}
+        if k in ('CXXConstructExpr', 'CXXTemporaryObjectExpr') and len(x.get('inner', [])) == 1:
+            return self.ret_value(x['inner'][0], lines, ind)
+        if k in ('CallExpr', 'CXXMemberCallExpr', 'CXXOperatorCallExpr'):
+            key, d, args = self.callee(x)
+            for a in x.get('inner', []):
+                self.events_in(a, lines, ind)
+            self.call_effects(key, d, args, lines, ind, want_value=False)
+            if self.callee_ret_kind(key, d):
+                return '__skel_ret'
+            return 'nondet_bool()' if self.is_optional_type(x) else '1'
+        self.events_in(x, lines, ind)
+        if self.is_optional_type(x):
+            return 'nondet_bool()'          # an optional of unknown state
+        return '1'                          # a value converted to optional
+
     # ------------------------------------------------------------ functions
     def lambda_name(self, vid):
         key = ('lambda', vid)
@@ -577,10 +685,12 @@ class Skel:
         if call is None:
             raise LoweringError('generic lambda in a skeleton function')
         self.stats['lambdas'] += 1
-        saved = (self.try_stack, self.cur_return)
-        self.try_stack, self.cur_return = [], None
+        saved = (self.try_stack, self.cur_return, self.cur_ret_kind, self.boolvars, self.optvars)
+        # the C locals that carry tracked booleans of the enclosing function are not visible in the lambda's function:
+        # captured ones become arbitrary (sound)
+        self.try_stack, self.cur_return, self.cur_ret_kind, self.boolvars, self.optvars = [], None, self.ret_kind_of(call), {}, {}
         text = self.stmts(body(call), '')
-        self.try_stack, self.cur_return = saved
+        self.try_stack, self.cur_return, self.cur_ret_kind, self.boolvars, self.optvars = saved
         self.protos.append(f'static void {name}(void);')
         self.out.append((name, f'static void {name}(void)\n' + '\n'.join(text) + '\n'))
         return name
@@ -601,6 +711,8 @@ class Skel:
         q = self.qname_of(cid)
         self.cur_name = mangle(q)
         self.alias, self.boolvars, self.lambdas, self.try_stack = {}, {}, {}, []
+        self.optvars = {}
+        self.cur_ret_kind = self.ret_kind_of(node)
         self.cur_return = None
         for pat, macro in self.spec.returns.items():
             if suffix_match(q, pat):
@@ -627,6 +739,32 @@ class Skel:
                 cid = self.canon(n['id'])
                 self.defs.setdefault(cid, n)
                 roots.append(self.request(cid))
+        for fn, lit in self.spec.focus:
+            c = [(q, n) for q, n in self.ix.lookup(fn, kinds=('FunctionDecl', 'CXXMethodDecl')) if has_body(n)]
+            if not c:
+                raise LoweringError(f'focus function {fn} not found in {self.spec.source}')
+            q, node = c[0]
+            target = self.find_if(body(node), lit)
+            if target is None:
+                raise LoweringError(f'no `if` mentioning {lit} in {fn} (renamed or removed?)')
+            inner = [x for x in target.get('inner', [])]
+            if target.get('hasInit'):
+                inner.pop(0)
+            if target.get('hasVar'):
+                inner.pop(0)
+            name = 'skel_' + mangle(q) + '__focus'
+            self.cur_name = mangle(q) + '__focus'
+            self.alias, self.boolvars, self.lambdas, self.try_stack = {}, {}, {}, []
+            self.optvars = {}
+            self.cur_ret_kind = None
+            self.cur_return = None
+            text = self.block(inner[1], '')
+            self.protos.append(f'void {name}(void);')
+            line = target.get('range', {}).get('begin', {}).get('line')
+            self.out.append((name, f'/* skeleton of the `if (... {lit} ...)` branch of {q} ({self.spec.source}) */\nvoid {name}(void)\n' + '\n'.join(text) + '\n'))
+            self.lines_of[name] = line
+            self.stats['functions'] += 1
+            roots.append(name)
         while self.queue:
             cid = self.queue.pop(0)
             if cid in self.done:
@@ -634,9 +772,32 @@ class Skel:
             self.lines_of[self.fnames[cid]] = self.lower_fn(cid)
         return roots
 
+    def find_if(self, n, lit):
+        if n is None:
+            return None
+        if n.get('kind') == 'IfStmt':
+            inner = list(n.get('inner', []))
+            if n.get('hasInit'):
+                inner.pop(0)
+            if n.get('hasVar'):
+                inner.pop(0)
+            if inner and self.mentions(inner[0], lit):
+                return n
+        for c in n.get('inner', []):
+            r = self.find_if(c, lit)
+            if r is not None:
+                return r
+        return None
+
+    def mentions(self, e, lit):
+        if e.get('kind') == 'StringLiteral' and e.get('value') == lit:
+            return True
+        return any(self.mentions(c, lit) for c in e.get('inner', []))
+
     def emit(self):
         L = ['/* generated by cxxskel from %s -- control-flow skeleton, do not edit */' % self.spec.source,
-             '#include <stdint.h>', '_Bool nondet_bool(void); int nondet_int(void);', '_Bool __skel_exc;', '']
+             '#include <stdint.h>', '_Bool nondet_bool(void); int nondet_int(void);', '_Bool __skel_exc;',
+             '_Bool __skel_ret;   /* success facet (true / has_value) of the last skeleton callee that returned bool or optional */', '']
         L += self.spec.prologue + ['']
         L += self.protos + ['']
         for _, t in self.out:
